@@ -377,6 +377,42 @@ func (s *netSim) byzAct(b int) {
 	if s.w.IndexAt(h, b) < 0 {
 		return
 	}
+	if s.rng.Intn(14) == 0 && s.steps > 150 {
+		// FALSE MAJORITY CLAIM + duplicates: the Byzantine validator, as a peer, claims +2/3 precommits for one of ITS OWN
+		// (valid) blocks, sends nil first, then its conflicting precommit for that block several times, and the block
+		// part.  A vote set counts a validator once however often and with whichever votes it comes; if it did not, the
+		// victim would see a majority nobody else sees and commit another block than the rest (agreement of the stores).
+		// (Majority claims change the vote-set semantics the trace specification models: the trace is cut here.)
+		var own []string
+		for n := range s.parts {
+			if strings.HasPrefix(n, "z") && s.ids[n].Hash != (common.Hash{}) {
+				if _, ok := s.names[h][s.ids[n].Hash]; ok {
+					own = append(own, n)
+				}
+			}
+		}
+		sort.Strings(own)
+		if len(own) > 0 {
+			name := own[s.rng.Intn(len(own))]
+			key := fmt.Sprintf("claim/%d/%d/%d/%d", b, h, rs.Round, to)
+			if !s.byzSent[key] {
+				s.byzSent[key] = true
+				if s.cut < 0 {
+					s.cut = len(s.trace)
+				}
+				nd.CS.VerifSetPeerMaj23(h, rs.Round, kproto.PrecommitType, p2p.ID(fmt.Sprintf("n%d", b)), s.ids[name])
+				vn := s.w.SignVoteFor(b, kproto.PrecommitType, h, rs.Round, types.BlockID{}, time.Now())
+				s.deliver(flight{to: to, from: b, msg: &consensus.VoteMessage{Vote: vn}})
+				vb := s.w.SignVoteFor(b, kproto.PrecommitType, h, rs.Round, s.ids[name], time.Now())
+				for k := 0; k < 4; k++ {
+					s.deliver(flight{to: to, from: b, msg: &consensus.VoteMessage{Vote: vb.Copy()}})
+				}
+				s.deliver(flight{to: to, from: b, msg: &consensus.BlockPartMessage{Height: h, Round: rs.Round, Part: s.parts[name][0]},
+					abs: J{"k": "part", "h": h, "r": rs.Round, "bid": name}})
+				return
+			}
+		}
+	}
 	if s.rng.Intn(5) == 0 && len(cands) > 1 {
 		// SPLIT vote: nil to one victim, a block to everybody else (same type and round).  The others may reach +2/3
 		// with the Byzantine vote and move on; the victim later holds the Byzantine validator's OTHER vote first and
@@ -486,6 +522,7 @@ func (s *netSim) byzAct(b int) {
 		} else {
 			name = s.nameBlock(h, id, prefix)
 		}
+		s.parts[name] = []*types.Part{ps.GetPart(0)}
 		pol := uint32(0)
 		if rs.Round > 1 && s.rng.Intn(3) == 0 {
 			pol = uint32(1 + s.rng.Intn(int(rs.Round-1)))
@@ -880,6 +917,21 @@ func (s *netSim) runSynchronous(until uint64, maxSteps int) bool {
 
 // agreement on the real block stores
 func (s *netSim) storeDisagreement() string {
+	// every stored block must be justified by its stored commit: +2/3 of the validator set of that height signed it
+	// (the real VerifyCommit, which C02 binds to the specification)
+	for _, i := range s.order {
+		nd := s.nodes[i]
+		for h := uint64(1); h <= nd.BO.Height(); h++ {
+			b, c := nd.BO.LoadBlock(h), nd.BO.LoadSeenCommit(h)
+			if b == nil || c == nil {
+				continue
+			}
+			id := types.BlockID{Hash: b.Hash(), PartsHeader: b.MakePartSet(types.BlockPartSizeBytes).Header()}
+			if err := s.w.SetAt(int(h)).VerifyCommit(ChainID, id, h, c); err != nil {
+				return fmt.Sprintf("validator %d stored block %s at height %d but the commit it stored for it does not justify it: %v", i, b.Hash().Hex()[:12], h, err)
+			}
+		}
+	}
 	maxH := uint64(0)
 	for _, nd := range s.nodes {
 		if h := nd.BO.Height(); h > maxH {
